@@ -30,7 +30,7 @@ def _violations(prop, root):
         for rr in r if isinstance(r, list) else [r]:
             for o in rr.obs:
                 if not o.ok:
-                    out.add((o.rule, o.file, o.function, o.construct))
+                    out.add((o.rule if not o.undecided else "UNDECIDED:" + o.rule, o.file, o.function, o.construct))
     return out
 
 
